@@ -51,6 +51,7 @@ type context struct {
 	reqMsg        *protocol.Message // message for transmit
 	repMsg        *protocol.Message // received reply
 	sendMsg       *protocol.Message // messaging waiting for send
+	sendSeq       uint64            // counts calls of SendMsg on this context
 	lastPipe      *pipe             // last pipe used for transmit
 	reqID         uint32            // request ID
 	receiveWait   bool              // true if a thread is blocked receiving
@@ -264,6 +265,10 @@ func (c *context) SendMsg(m *protocol.Message) error {
 	c.reqID = id
 	c.queued = true
 	c.sendMsg = m
+	// The message alone does not identify this Send: messages are
+	// recycled, and a later Send may wait with the same message.
+	c.sendSeq++
+	seq := c.sendSeq
 
 	s.sendQ = append(s.sendQ, c)
 
@@ -280,9 +285,7 @@ func (c *context) SendMsg(m *protocol.Message) error {
 	if c.sendExpire > 0 {
 		c.sendTimer = time.AfterFunc(c.sendExpire, func() {
 			s.Lock()
-			// The message alone does not identify this Send: a later
-			// Send may have been handed the same (recycled) message.
-			if c.sendMsg == m && c.reqID == id {
+			if c.sendMsg == m && c.sendSeq == seq {
 				expired = true
 				c.cancel() // also does a wake-up
 			}
@@ -296,10 +299,10 @@ func (c *context) SendMsg(m *protocol.Message) error {
 	// It is responsible for providing the blocking semantic and
 	// ultimately back-pressure.  Note that we will "continue" if
 	// sending is canceled by a subsequent send.
-	for c.sendMsg == m && !expired && !c.closed && !(c.failNoPeers && len(s.pipes) == 0) {
+	for c.sendMsg == m && c.sendSeq == seq && !expired && !c.closed && !(c.failNoPeers && len(s.pipes) == 0) {
 		c.cond.Wait()
 	}
-	if c.sendMsg == m {
+	if c.sendMsg == m && c.sendSeq == seq {
 		c.cancelSend()
 		c.sendMsg = nil
 		c.reqID = 0
